@@ -137,6 +137,7 @@ const char* ParseDateTime(const char* p, PosixTransition* res) {
 bool ParsePosixSpec(const std::string& spec, PosixTimeZone* res) {
   const char* p = spec.c_str();
   if (*p == ':') return false;
+  if (spec.find('\0') != std::string::npos) return false;  // not a C string
 
   p = ParseAbbr(p, &res->std_abbr);
   p = ParseOffset(p, 0, 24, -1, &res->std_offset);
